@@ -25,7 +25,9 @@ run_one() {
   if [ $rc -eq 1 ]; then echo "CAUGHT $id $(pname "$patch") :: $cls" >> "$res";
   elif [ $rc -eq 0 ]; then echo "MISSED $id $(pname "$patch")" >> "$res";
   else echo "INCONCLUSIVE($rc) $id $(pname "$patch") :: $(echo "$out" | tail -3 | tr '\n' ' ' | cut -c1-300)" >> "$res"; fi
-  rm -rf "$dir"
+  tag=$(printf %s "$dir" | sha256sum | cut -c1-8)
+  rm -f "$ROOT"/bin/*.$tag.test "$ROOT"/bin/*.$tag.race.test "$ROOT"/work/alt.$tag.mod "$ROOT"/work/alt.$tag.sum
+  rm -rf "$dir" "$ROOT/work/$id.$tag"
 }
 JOBS=${JOBS:-4}
 for id in "${ids[@]}"; do
@@ -37,5 +39,4 @@ for id in "${ids[@]}"; do
 done
 wait
 sort "$res"
-rm -f "$ROOT"/bin/*.????????.test "$ROOT"/bin/*.????????.race.test "$ROOT"/work/alt.*.mod "$ROOT"/work/alt.*.sum 2>/dev/null
 grep -q "^MISSED\|^PATCH-FAILED" "$res" && exit 1 || exit 0
